@@ -105,6 +105,23 @@ def direct_oracle(c):
                 if ref4['err'] is None and [e['pos'] for e in ref4['vals']] != [e['pos'] for e in r4['vals']]:
                     fails.append(('sort_fn_equivalent_to_sorted_differs', {'builtin': [e['pos'] for e in ref4['vals']],
                                                                           'custom': [e['pos'] for e in r4['vals']]}))
+        # groupby with group ids that are hashable but not ordered among each other
+        for nm, gid in (('none_and_int', lambda ex: None if ex['v'] % 3 == 0 else ex['v'] % 3),
+                        ('frozenset', lambda ex: frozenset({'A'} if ex['v'] % 2 else {'B'}) | (frozenset({'C'}) if ex['v'] % 3 == 0 else frozenset())),
+                        ('str_and_int', lambda ex: str(ex['v'] % 2) if ex['v'] % 4 < 2 else ex['v'] % 2)):
+            try:
+                gs = ds.groupby(gid)
+                got_g = {g: [e['pos'] for e in gds] for g, gds in gs.items()}
+            except Exception as e:  # noqa
+                if vals:
+                    fails.append(('groupby_unordered_ids_raises', {'ids': nm, 'err': repr(e)[:120]}))
+                continue
+            want_g = {}
+            for e in examples:
+                want_g.setdefault(gid(e), []).append(e['pos'])
+            if got_g != want_g:
+                fails.append(('groupby_unordered_ids', {'ids': nm, 'values': vals, 'got': {repr(k): v for k, v in got_g.items()},
+                                                        'want': {repr(k): v for k, v in want_g.items()}}))
         # groupby
         try:
             groups = ds.groupby(keyf)
